@@ -9,7 +9,7 @@
 From Coq Require Import List ZArith Bool.
 Require Import MTX.Lib.IntWrap MTX.Model.C24_MulDiv MTX.Model.C28_SegRead MTX.Proofs.C28_SegRead
   MTX.Model.C27_Fmp4Rec MTX.Proofs.C27_Fmp4Rec MTX.Model.C27_Segmenter MTX.Proofs.C27_Segmenter MTX.Proofs.C27_SegLink
-  MTX.Model.C27_Rewrite MTX.Proofs.C27_Rewrite.
+  MTX.Proofs.C27_SegDur MTX.Model.C27_Rewrite MTX.Proofs.C27_Rewrite.
 Import ListNotations.
 Local Open Scope Z_scope.
 
@@ -238,6 +238,66 @@ Theorem C27_segmenter_recover : forall enc_ftyp enc_moov enc_part dur_off enc_du
   = Ok (expect_last ps (len (init_bytes ft mv)) j (-1)).
 Proof. exact link_recover. Qed.
 Print Assumptions C27_segmenter_recover.
+
+(* ---- the duration a segment records at close, with any number of tracks interleaved in any order (b5-c27) ----
+   The true duration of a file is (the end of the sample that ends LAST) - (segment start): `media_end` is the
+   maximum over every sample of the file's parts, whatever the order in which the tracks handed them in - with audio
+   ahead of video, or a sparse track with long samples, the sample written last before the close ends earlier than
+   one written before it. SClose n d = writeDuration(d) + onSegmentComplete(path, d). *)
+
+(* every segment closed by a switch (all of the log before formatFMP4.close) records exactly its true duration,
+   whether or not a write fails later *)
+Theorem C27_true_duration_at_switch : forall c evs,
+  let x := run_from c (init_st c) (gate c evs) in
+  dur_scan None (x_log x) = true /\
+  forall f d, In f (files_of (x_log x)) -> f_closed f = Some d -> d = true_duration f.
+Proof. exact closed_by_switch_exact. Qed.
+Print Assumptions C27_true_duration_at_switch.
+
+(* every file of every run is closed with a duration that is never below its true duration (the media in the file
+   never extends beyond what the header and onSegmentComplete say) *)
+Theorem C27_true_duration_never_short : forall c evs f, In f (files_of (x_log (run c evs))) ->
+  exists d, f_closed f = Some d /\ true_duration f <= d.
+Proof. exact closed_never_short. Qed.
+Print Assumptions C27_true_duration_never_short.
+
+(* when no formatFMP4Track.write call returned an error, every file records exactly its true duration *)
+Theorem C27_true_duration : forall c evs, (forall o, In o (x_outs (run c evs)) -> o <> o_err) ->
+  forall f, In f (files_of (x_log (run c evs))) -> f_closed f = Some (true_duration f).
+Proof. exact closed_exact. Qed.
+Print Assumptions C27_true_duration.
+
+(* ... which cannot be had after a failed write ("reached maximum part size"): formatFMP4Segment.write raises endDTS
+   before formatFMP4Part.write refuses the sample, so the file closed by formatFMP4.close records the end of a
+   sample it does not hold *)
+Theorem C27_true_duration_after_error_refuted :
+  exists c evs f d, In f (files_of (x_log (run c evs))) /\ In o_err (x_outs (run c evs)) /\
+                    f_closed f = Some d /\ true_duration f < d.
+Proof. exact example_after_error. Qed.
+Print Assumptions C27_true_duration_after_error_refuted.
+
+(* track by track: when the sample ends of each track do not decrease (they do not, except by a nanosecond of
+   rounding around zero-length samples at negative timestamps), the media end is the maximum over the tracks of the
+   end of their last sample *)
+Theorem C27_media_end_per_track : forall n start l,
+  (forall w, In w l -> (w_trk w < n)%nat) ->
+  (forall t, (t < n)%nat -> nondecr (track_ends t l) = true) ->
+  media_end start l = tracks_end n start l.
+Proof. exact media_end_per_track. Qed.
+Print Assumptions C27_media_end_per_track.
+
+(* non-vacuity, and the input class of seeded change C27-b: 25 fps video + 20 ms audio frames that arrive 400 ms
+   ahead; no error; one file; the sample written last is a video sample ending at 0.8 s, the audio written before it
+   ends at 1.22 s: recorded = true duration = maximum over the tracks = 1.22 s, not 0.8 s *)
+Example C27_true_duration_example :
+  let x := run exd_cfg exd_evs in
+  (forall o, In o (x_outs x) -> o <> o_err) /\
+  map (fun f => (f_closed f, true_duration f, last_written_end (f_sdts f) (file_samples f) - f_sdts f,
+                 tracks_end 2 (f_sdts f) (file_samples f) - f_sdts f,
+                 nondecr (track_ends 0 (file_samples f)) && nondecr (track_ends 1 (file_samples f))))
+      (files_of (x_log x))
+  = [(Some 1220000000, 1220000000, 800000000, 1220000000, true)].
+Proof. exact example_true_duration. Qed.
 
 (* audio creates the first segment 10 ms after the first key frame: the key frame is late, its group is discarded,
    three files, all closed, each with video, each starting on a sync sample (by C27_starts_on_sync) *)
